@@ -288,7 +288,13 @@ class FinishedPdu(AbstractFileDirectiveBase):
 
     def __eq__(self, other: FinishedPdu):
         return (
-            self._params == other._params
+            self._params.condition_code == other._params.condition_code
+            and self._params.delivery_code == other._params.delivery_code
+            and self._params.file_status == other._params.file_status
+            # No filestore responses may be given as None or as an empty list
+            and (self._params.file_store_responses or [])
+            == (other._params.file_store_responses or [])
+            and self._params.fault_location == other._params.fault_location
             and self.pdu_file_directive == other.pdu_file_directive
         )
 
